@@ -65,6 +65,7 @@ var checks = []checkDef{
 		Rule: layerBRule, Assumptions: layerBAssume, RealStub: layerBReal,
 		MustProbe: []string{"c2_from_param", "c2_from_header", "c2_from_host", "c2_from_sni", "c2_out_of_ideas", "sni_port_443", "scripts_run", "template_unparsable", "template_missing", "template_exec_error", "template_unreadable"}},
 	{ID: "C12", Engine: "hsrvsim", Level: "exploration", QuickMS: 40000, ThoroughMS: 600000, SelftestRuns: 60,
+		Also: []also{{Engine: "procsim", Workers: 2, Why: "the process half of the property, with the binary built by the repository's default toolchain: one-shell family of real processes under a pty (two unidirectional streams, /io, refused and half-attached attempts first, a connection made early that sends its request late or never): new connections refused after the ready notice, exit by itself with status 0 at the next entered line, no fatal error, terminal mode restored"}},
 		Rule: layerBRule, Assumptions: layerBAssume, RealStub: layerBReal,
 		MustProbe: []string{"one_shell_ready", "one_shell_finished", "refused_over_http", "io_sessions", "lines_over_http"}},
 	{ID: "C01", Engine: "brokersim", Level: "exploration", QuickMS: 40000, ThoroughMS: 600000, SelftestRuns: 200,
@@ -88,11 +89,11 @@ var checks = []checkDef{
 		StateMeasure: layerAStates, Assumptions: layerAAssume, RealStub: layerAReal,
 		MustProbe: []string{"enum_cases", "io_shell_ready", "io_attempts"}},
 	{ID: "C13", Engine: "pinsim", Level: "exploration", QuickMS: 40000, ThoroughMS: 600000, SelftestRuns: 100,
-		Rule: "one evaluation = one simulated run (one synctest bubble): 4-10 HTTPS servers with keys from a pool (self-signed, chains of length 1-3 with the pinned key at leaf, intermediate or root position, chains that validate against the harness root and chains that do not, expired), and a history of 2-12 calls to the real simpleshell.Go through http.DefaultTransport pointed at the in-memory network, with every fingerprint spelling (plain, sha256// prefix, unpadded, wrong length, non-base64, hex, of another server, one bit flipped, none) and overlapping lifetimes (a harness Shell keeps each call streaming until the simulator ends it), connection resets; every run starts after one finished pinned call to a canary server, so that hidden process-wide state shows in the first run too; distinct = hash of (configuration, action sequence); non-trivial = at least two different call configurations, or a malformed or wrong fingerprint",
+		Rule:         "one evaluation = one simulated run (one synctest bubble): 4-10 HTTPS servers with keys from a pool (self-signed, chains of length 1-3 with the pinned key at leaf, intermediate or root position, chains that validate against the harness root and chains that do not, expired), and a history of 2-12 calls to the real simpleshell.Go through http.DefaultTransport pointed at the in-memory network, with every fingerprint spelling (plain, sha256// prefix, unpadded, wrong length, non-base64, hex, of another server, one bit flipped, none) and overlapping lifetimes (a harness Shell keeps each call streaming until the simulator ends it), connection resets; every run starts after one finished pinned call to a canary server, so that hidden process-wide state shows in the first run too; distinct = hash of (configuration, action sequence); non-trivial = at least two different call configurations, or a malformed or wrong fingerprint",
 		StateMeasure: "states = per call (class, spelling, matched chain roles, server kind, chain length, allowed, overlapped, after-pinned, faulted, success)",
-		Assumptions: []string{"servers offer only http/1.1", "ordinary validation = x509 verification of the presented chain against the harness root for the host name at the bubble's epoch", "a fingerprint that decodes to 32 bytes only under lenient/unpadded base64 is not judged for success or refusal (only the traffic rule applies)", "http.DefaultClient.Transport and the DefaultTransport seam are reset at both ends of every run so that runs are independent"},
-		RealStub:    map[string]string{"real": "simpleshell.Go, TLSFingerprintVerifier, http.DefaultClient, http.DefaultTransport and its clones, crypto/tls both sides, crypto/x509, net/http server", "stub": "network (simnet), clock (synctest), the Shell implementation, the curlrevshell side (record-and-echo handler), certificate authorities and chains"},
-		MustProbe:   []string{"overlapping_calls", "pin_at_intermediate", "pin_at_root", "unpinned_call_after_pinned", "valid_chain_unpinned_ok", "malformed_fp", "wrong_pin"}},
+		Assumptions:  []string{"servers offer only http/1.1", "ordinary validation = x509 verification of the presented chain against the harness root for the host name at the bubble's epoch", "a fingerprint that decodes to 32 bytes only under lenient/unpadded base64 is not judged for success or refusal (only the traffic rule applies)", "http.DefaultClient.Transport and the DefaultTransport seam are reset at both ends of every run so that runs are independent"},
+		RealStub:     map[string]string{"real": "simpleshell.Go, TLSFingerprintVerifier, http.DefaultClient, http.DefaultTransport and its clones, crypto/tls both sides, crypto/x509, net/http server", "stub": "network (simnet), clock (synctest), the Shell implementation, the curlrevshell side (record-and-echo handler), certificate authorities and chains"},
+		MustProbe:    []string{"overlapping_calls", "pin_at_intermediate", "pin_at_root", "unpinned_call_after_pinned", "valid_chain_unpinned_ok", "malformed_fp", "wrong_pin"}},
 	{ID: "C14", Engine: "cmdshellsim", Level: "exploration", Workers: 8, GOMAXPROCS: 2, QuickMS: 40000, ThoroughMS: 600000, SelftestRuns: 100,
 		Rule:        "one evaluation = one real child process run through simpleshell.CmdShell under a generated plan: the child is a puppet (the worker binary re-executed) that writes counted patterns to stdout/stderr, closes descriptors, reads stdin to EOF, waits on observed states and exits with a chosen code; the input reader and the consumer of Output() follow seeded chunk sizes and gates on observed states (child reaped, Go returned, input done), never on sleeps; distinct = hash of the plan; non-trivial = the plan has a gate, a child-side wait, a non-zero exit or more than 4096 bytes of traffic. A plan that shows a violation is run four more times to tell a plan that always fails from an intermittent one",
 		Assumptions: []string{"real kernel processes and pipes: not a simulation; the verdict of the oracle is schedule-independent, so a miss is possible but a false alarm is not", "Linux /proc and FIONREAD on pipes; kernel pipe buffer >= 64 KiB (plans keep un-consumed output below 60000 bytes when the consumer waits for the child's exit)", "not bit-replayable: the replay file is the plan and reproduces through its observed-state gates"},
